@@ -58,6 +58,8 @@ type sknobs struct {
 	crashBudget          int
 	avoidKnown           bool
 	zeroEvent            bool
+	nativeV6             bool // native BGP mode with IPv6 pools (configurations with BGP advertisements are then refused)
+	bgpFocus             bool // swarm: a BGP-heavy run (peers and BGP advertisements present from the start, BGP-weighted operations)
 }
 
 type sworker struct {
